@@ -18,6 +18,7 @@ import (
 
 // Builder replays an abstract module through llir's public constructors.
 type Builder struct {
+	stale  bool
 	M      *ir.Module
 	ts     *Types
 	am     *am.Module
@@ -39,8 +40,16 @@ type Builder struct {
 func (b *Builder) call(name string) { b.Calls[name]++ }
 
 // Module builds the llir module for m. Panics of llir constructors propagate (the caller guards).
-func Module(m *am.Module) (*ir.Module, map[string]int) {
-	b := &Builder{M: ir.NewModule(), ts: NewTypes(m.U), am: m,
+func Module(m *am.Module) (*ir.Module, map[string]int) { return ModuleWith(m, false) }
+
+// ModuleWith is Module with a choice about the cached types of entities whose address space is set
+// after construction (the constructors take no address space). staleTypes = false resets the cache and
+// lets the library recompute it at once, which is what a careful user does and what every typing check
+// needs. staleTypes = true only assigns the AddrSpace field, the naive use of the API: the cached type
+// keeps address space 0 and operands print with it. That output is wrong but deterministic; C13 uses
+// this mode because printing must not write the caches in that state either.
+func ModuleWith(m *am.Module, staleTypes bool) (*ir.Module, map[string]int) {
+	b := &Builder{stale: staleTypes, M: ir.NewModule(), ts: NewTypes(m.U), am: m,
 		funcs: map[*am.Fun]*ir.Func{}, globs: map[*am.Global]*ir.Global{}, alias: map[*am.Alias]value.Value{},
 		blocks: map[*am.Block]*ir.Block{}, insts: map[*am.Inst]value.Value{}, params: map[*am.Param]*ir.Param{},
 		comdat: map[*am.Comdat]*ir.ComdatDef{}, groups: map[*am.AttrGroup]*ir.AttrGroupDef{}, mds: map[*am.MDNode]*metadata.Tuple{},
@@ -307,8 +316,10 @@ func (b *Builder) globalScaffold(g *am.Global) {
 	gl.TLSModel = tls(g.TLS)
 	gl.UnnamedAddr = unnamedAddr(g.UnnamedAddr)
 	gl.AddrSpace = types.AddrSpace(g.AddrSpace)
-	gl.Typ = nil // the address space is part of the type: let the library recompute it (now, not lazily during printing)
-	gl.Type()
+	if !b.stale {
+		gl.Typ = nil // the address space is part of the type: let the library recompute it (now, not lazily during printing)
+		gl.Type()
+	}
 	gl.ExternallyInitialized = g.ExternInit
 	gl.Section = g.Section
 	gl.Partition = g.Partition
@@ -376,8 +387,10 @@ func (b *Builder) funcScaffold(f *am.Fun) {
 	}
 	fn.UnnamedAddr = unnamedAddr(f.UnnamedAddr)
 	fn.AddrSpace = types.AddrSpace(f.AddrSpace)
-	fn.Typ = nil
-	fn.Type() // recompute the cached pointer type with the address space, before anything can print concurrently
+	if !b.stale {
+		fn.Typ = nil
+		fn.Type() // recompute the cached pointer type with the address space, before anything can print concurrently
+	}
 	for _, a := range f.FnAttrs {
 		fn.FuncAttrs = append(fn.FuncAttrs, b.funcAttr(a))
 	}
